@@ -1,4 +1,246 @@
 /- helper lemmas for C17 -/
 import MelModel.Seal
 namespace Mel
+open Mel.Gen
+
+/-! ### arithmetic of `moveFeeMultiplier` -/
+
+/-- the maximum movement, with the generated constants evaluated -/
+def feeMaxMove (m : Nat) (tip901 : Bool) : Nat := if tip901 then max (m / 128) 2 else m / 128
+
+/-- `moveFeeMultiplier` with the generated constants evaluated (breaks if a constant changes) -/
+theorem moveFeeMultiplier_eq (m : Nat) (δ : Int) (tip901 : Bool) :
+    moveFeeMultiplier m δ tip901 =
+      if δ ≥ 0 then min (m + feeMaxMove m tip901 * δ.natAbs / 128) U128_MAX
+      else m - feeMaxMove m tip901 * δ.natAbs / 128 := by
+  simp [moveFeeMultiplier, feeMaxMove, satAdd128, FEEMULT_SHIFT, FEEMULT_FLOOR, FEEMULT_DIV]
+
+/-- truncated division of the signed product, nonnegative delta -/
+theorem tdiv_mul_of_nonneg (mm : Nat) (δ : Int) (h : 0 ≤ δ) :
+    Int.tdiv ((mm : Int) * δ) 128 = ((mm * δ.natAbs / 128 : Nat) : Int) := by
+  obtain ⟨d, rfl⟩ := Int.eq_ofNat_of_zero_le h
+  rw [← Int.natCast_mul, Int.natCast_tdiv_eq_ediv, Int.natAbs_natCast]
+  exact (Int.natCast_ediv _ _).symm
+
+/-- truncated division of the signed product, negative delta -/
+theorem tdiv_mul_of_neg (mm : Nat) (δ : Int) (h : δ < 0) :
+    Int.tdiv ((mm : Int) * δ) 128 = -((mm * δ.natAbs / 128 : Nat) : Int) := by
+  have h' : 0 ≤ -δ := by omega
+  have := tdiv_mul_of_nonneg mm (-δ) h'
+  rw [Int.mul_neg, Int.neg_tdiv, Int.natAbs_neg] at this
+  omega
+
+/-- the scaled movement never exceeds the maximum movement -/
+theorem scaled_le (mm d : Nat) (hd : d ≤ 128) : mm * d / 128 ≤ mm := by
+  have : mm * d ≤ mm * 128 := Nat.mul_le_mul_left mm hd
+  omega
+
+theorem natAbs_le_128 (δ : Int) (hδ : -128 ≤ δ ∧ δ ≤ 127) : δ.natAbs ≤ 128 := by omega
+
+/-- the pre-fix code agrees with the repaired code on `2 ≤ m < 2^63` -/
+theorem moveFeeMultiplierOld_agrees (m : Nat) (δ : Int) (tip901 : Bool) (h2 : 2 ≤ m) (hm : m < 2 ^ 63)
+    (hδ : -128 ≤ δ ∧ δ ≤ 127) :
+    moveFeeMultiplierOld m δ tip901 = some (moveFeeMultiplier m δ tip901) := by
+  have hU : U128_MAX = 340282366920938463463374607431768211455 := by decide
+  have hd := natAbs_le_128 δ hδ
+  have hs := scaled_le (feeMaxMove m tip901) δ.natAbs hd
+  have hmm : feeMaxMove m tip901 ≤ m ∧ feeMaxMove m tip901 < 2^56 := by
+    unfold feeMaxMove; split <;> omega
+  have hmod : m / 128 % 2^64 = m/128 := Nat.mod_eq_of_lt (by omega)
+  have hlt : m / 128 < 2^63 := by omega
+  have hI : (if tip901 = true then max ((m / 128 : Nat) : Int) 2 else ((m / 128 : Nat) : Int))
+      = (feeMaxMove m tip901 : Int) := by
+    unfold feeMaxMove; split <;> omega
+  have hp : feeMaxMove m tip901 * δ.natAbs ≤ feeMaxMove m tip901 * 128 := Nat.mul_le_mul_left _ hd
+  rw [moveFeeMultiplier_eq]
+  unfold moveFeeMultiplierOld
+  simp only [hmod, hlt, if_true, hI]
+  by_cases h : δ ≥ 0
+  · have hprod : (feeMaxMove m tip901 : Int) * δ = ((feeMaxMove m tip901 * δ.natAbs : Nat) : Int) := by
+      rw [Int.natCast_mul, Int.natAbs_of_nonneg h]
+    rw [tdiv_mul_of_nonneg _ _ h, hprod, if_pos h]
+    generalize feeMaxMove m tip901 * δ.natAbs = p at *
+    rw [if_neg (by omega), if_pos (by omega), Int.toNat_natCast, if_neg (by omega)]
+    congr 1; omega
+  · have hprod : (feeMaxMove m tip901 : Int) * δ = -((feeMaxMove m tip901 * δ.natAbs : Nat) : Int) := by
+      rw [Int.natCast_mul, ← Int.mul_neg]; congr 1; omega
+    rw [tdiv_mul_of_neg _ _ (by omega), hprod, if_neg h]
+    generalize feeMaxMove m tip901 * δ.natAbs = p at *
+    rw [if_neg (by omega), Int.natAbs_neg, Int.natAbs_natCast, Int.toNat_neg_natCast]
+    split
+    · rw [if_neg (by omega)]; congr 1; omega
+    · rw [if_neg (by omega)]
+
+/-- with TIP-901 on, `2^70 >> 7 = 2^63` wraps to `i64::MIN` and is then floored to 2: no panic there -/
+theorem moveFeeMultiplierOld_2p70_true : moveFeeMultiplierOld (2 ^ 70) 127 true = some (2 ^ 70 + 1) := by
+  decide
+/-- i64 overflow witnesses of the pre-fix code -/
+theorem moveFeeMultiplierOld_2p64_true : moveFeeMultiplierOld (2 ^ 64) 127 true = none := by decide
+theorem moveFeeMultiplierOld_2p70_false : moveFeeMultiplierOld (2 ^ 70) 127 false = none := by decide
+
+/-! ### the fee multiplier (and height, network) is untouched by Melmint and the TIP-909 subsidy -/
+
+def SameFM (s s' : State) : Prop :=
+  s'.feeMultiplier = s.feeMultiplier ∧ s'.height = s.height ∧ s'.network = s.network
+
+theorem SameFM.refl (s : State) : SameFM s s := ⟨rfl, rfl, rfl⟩
+
+theorem SameFM.trans {a b c : State} (h1 : SameFM a b) (h2 : SameFM b c) : SameFM a c :=
+  ⟨h2.1.trans h1.1, h2.2.1.trans h1.2.1, h2.2.2.trans h1.2.2⟩
+
+theorem SameFM.tip901 {s s' : State} (h : SameFM s s') : s'.tip901 = s.tip901 := by
+  simp [State.tip901, State.tipCondition, h.2.1, h.2.2]
+
+theorem Outcome.bind_eq_ok {α β} {x : Outcome α} {f : α → Outcome β} {b : β}
+    (h : x.bind f = .ok b) : ∃ a, x = .ok a ∧ f a = .ok b := by
+  cases x with
+  | ok a => exact ⟨a, rfl, h⟩
+  | reject e => cases h
+  | crash c => cases h
+
+theorem Outcome.foldlM'_inv {α β} (P : β → Prop) (f : β → α → Outcome β)
+    (hf : ∀ b a b', P b → f b a = .ok b' → P b') :
+    ∀ (l : List α) (b b' : β), P b → Outcome.foldlM' f b l = .ok b' → P b' := by
+  intro l
+  induction l with
+  | nil =>
+    intro b b' hb h
+    simp only [Outcome.foldlM'] at h
+    cases h; exact hb
+  | cons a as ih =>
+    intro b b' hb h
+    simp only [Outcome.foldlM'] at h
+    split at h
+    · next b1 hb1 => exact ih b1 b' (hf b a b1 hb hb1) h
+    · cases h
+    · cases h
+
+theorem processSwapsForPool_same (k : PoolKey) (s : State) (swaps : List Tx) (s' : State)
+    (h : processSwapsForPool k s swaps = .ok s') : SameFM s s' := by
+  unfold processSwapsForPool at h
+  split at h
+  · cases h
+  · simp only at h
+    split at h
+    · cases h
+    · cases h
+    · obtain ⟨coins, _, h2⟩ := Outcome.bind_eq_ok h
+      cases h2; exact ⟨rfl, rfl, rfl⟩
+
+theorem processSwaps_same (s s' : State) (h : processSwaps s = .ok s') : SameFM s s' := by
+  unfold processSwaps at h
+  exact Outcome.foldlM'_inv (SameFM s) _
+    (fun b a b' hb hf => hb.trans (processSwapsForPool_same _ _ _ _ hf)) _ _ _ (SameFM.refl s) h
+
+theorem processDepositsForPool_same (env : Env) (k : PoolKey) (s : State) (deps : List Tx) (s' : State)
+    (h : processDepositsForPool env k s deps = .ok s') : SameFM s s' := by
+  unfold processDepositsForPool at h
+  simp only at h
+  split at h
+  · cases h
+  · cases h
+  · obtain ⟨coins, _, h2⟩ := Outcome.bind_eq_ok h
+    cases h2; exact ⟨rfl, rfl, rfl⟩
+
+theorem processDeposits_same (env : Env) (s s' : State) (h : processDeposits env s = .ok s') :
+    SameFM s s' := by
+  unfold processDeposits at h
+  exact Outcome.foldlM'_inv (SameFM s) _
+    (fun b a b' hb hf => hb.trans (processDepositsForPool_same _ _ _ _ _ hf)) _ _ _ (SameFM.refl s) h
+
+theorem processWithdrawalsForPool_same (k : PoolKey) (s : State) (reqs : List Tx) (s' : State)
+    (h : processWithdrawalsForPool k s reqs = .ok s') : SameFM s s' := by
+  unfold processWithdrawalsForPool at h
+  simp only at h
+  split at h
+  · cases h
+  · split at h
+    · cases h; exact SameFM.refl _
+    · split at h
+      · cases h
+      · cases h
+      · obtain ⟨coins, _, h2⟩ := Outcome.bind_eq_ok h
+        cases h2; exact ⟨rfl, rfl, rfl⟩
+
+theorem processWithdrawals_same (env : Env) (s s' : State) (h : processWithdrawals env s = .ok s') :
+    SameFM s s' := by
+  unfold processWithdrawals at h
+  exact Outcome.foldlM'_inv (SameFM s) _
+    (fun b a b' hb hf => hb.trans (processWithdrawalsForPool_same _ _ _ _ hf)) _ _ _ (SameFM.refl s) h
+
+theorem createBuiltins_same (s : State) : SameFM s (createBuiltins s) := ⟨rfl, rfl, rfl⟩
+
+theorem processPegging_same (s s' : State) (h : processPegging s = .ok s') : SameFM s s' := by
+  unfold processPegging at h
+  simp only at h
+  obtain ⟨⟨a, b⟩, _, h⟩ := Outcome.bind_eq_ok h
+  simp only at h
+  obtain ⟨sm, _, h⟩ := Outcome.bind_eq_ok h
+  split at h
+  · cases h
+  · obtain ⟨sm1, _, h⟩ := Outcome.bind_eq_ok h
+    obtain ⟨sm2, _, h⟩ := Outcome.bind_eq_ok h
+    cases h; exact ⟨rfl, rfl, rfl⟩
+
+theorem presealMelmint_same (env : Env) (s s' : State) (h : presealMelmint env s = .ok s') :
+    SameFM s s' := by
+  unfold presealMelmint at h
+  simp only at h
+  split at h
+  · cases h
+  · obtain ⟨s1, h1, h⟩ := Outcome.bind_eq_ok h
+    obtain ⟨s2, h2, h⟩ := Outcome.bind_eq_ok h
+    obtain ⟨s3, h3, h⟩ := Outcome.bind_eq_ok h
+    exact ((((createBuiltins_same s).trans (processSwaps_same _ _ h1)).trans
+      (processDeposits_same _ _ _ h2)).trans (processWithdrawals_same _ _ _ h3)).trans
+      (processPegging_same _ _ h)
+
+theorem applyTip909_same (s s' : State) (h : applyTip909 s = .ok s') : SameFM s s' := by
+  unfold applyTip909 at h
+  simp only at h
+  split at h
+  · cases h
+  · split at h
+    · cases h
+    · obtain ⟨⟨sm', mel, x⟩, _, h⟩ := Outcome.bind_eq_ok h
+      simp only at h
+      split at h
+      · cases h
+      · split at h
+        · cases h
+        · obtain ⟨⟨es', y, z⟩, _, h⟩ := Outcome.bind_eq_ok h
+          cases h; exact ⟨rfl, rfl, rfl⟩
+
+theorem collectProposerFee_feeMultiplier (env : Env) (s : State) (a : ProposerAction) (s' : State)
+    (h : collectProposerFee env s a = .ok s') : s'.feeMultiplier = s.feeMultiplier := by
+  unfold collectProposerFee at h
+  simp only at h
+  split at h
+  · cases h
+  · cases h; rfl
+
+theorem applyProposerAction_feeMultiplier (env : Env) (s : State) (a : ProposerAction) (s' : State)
+    (h : applyProposerAction env s a = .ok s') :
+    s'.feeMultiplier = moveFeeMultiplier s.feeMultiplier a.feeMultiplierDelta s.tip901 := by
+  unfold applyProposerAction at h
+  exact collectProposerFee_feeMultiplier _ _ _ _ h
+
+/-- the state just before the proposer action is applied has the original multiplier/height/network -/
+theorem sealState_pre (env : Env) (s : State) (action : Option ProposerAction) (ss : Sealed)
+    (h : sealState env s action = .ok ss) :
+    ∃ s2, SameFM s s2 ∧
+      (match action with
+       | none => Outcome.ok ({ st := s2, action := none } : Sealed)
+       | some a => (applyProposerAction env s2 a).bind fun s3 => .ok ({ st := s3, action := some a } : Sealed))
+        = .ok ss := by
+  unfold sealState at h
+  obtain ⟨s1, h1, h⟩ := Outcome.bind_eq_ok h
+  split at h
+  · cases h
+  · obtain ⟨s2, h2, h⟩ := Outcome.bind_eq_ok h
+    refine ⟨s2, (presealMelmint_same _ _ _ h1).trans ?_, h⟩
+    split at h2
+    · exact applyTip909_same _ _ h2
+    · cases h2; exact SameFM.refl _
+
 end Mel
